@@ -1352,7 +1352,12 @@ func (p *Posix) CreateMultipartUpload(ctx context.Context, mpu s3response.Create
 	verifhook.At("mpucreate.entry", bucket, object)
 	// the unique upload id is a directory for all of the parts
 	// associated with this specific multipart upload
-	err = os.MkdirAll(filepath.Join(tmppath, uploadID), 0755)
+	// (backend.MkdirAll does not make the bucket directory itself: a bucket
+	// deleted since the check above stays deleted)
+	err = backend.MkdirAll(filepath.Join(tmppath, uploadID), 0, 0, false, 0755)
+	if errors.Is(err, s3err.GetAPIError(s3err.ErrNoSuchBucket)) {
+		return s3response.InitiateMultipartUploadResult{}, err
+	}
 	if err != nil {
 		return s3response.InitiateMultipartUploadResult{}, fmt.Errorf("create upload temp dir: %w", err)
 	}
